@@ -1188,6 +1188,8 @@ void run_c19(Judge& j, uint64_t n, int64_t only = -1) {
                         // aim at an outstanding request: reply type with the id the request got (ids start at 1)
                         ref::Packet rp; rp.type = rng.pick(std::vector<uint8_t>{ref::PUBACK, ref::PUBREC, ref::PUBCOMP, ref::SUBACK, ref::UNSUBACK}); rp.pid = (uint16_t)rng.range(1, 3);
                         if (rp.type == ref::SUBACK || rp.type == ref::UNSUBACK) rp.rcs = {0};
+                        // full forms carry inner length fields (Property Length, string lengths) for the mutator to break
+                        if (rng.chance(1, 2)) { ref::Prop rs; rs.id = 0x1F; rs.s1 = "reason"; rp.props.push_back(rs); ref::Prop up; up.id = 0x26; up.s1 = "k"; up.s2 = "v"; rp.props.push_back(up); }
                         hostile += mutate_packet(rng, g, rp.type, &rp);
                     } else hostile += mutate_packet(rng, g, t);
                 } else {
@@ -1211,6 +1213,7 @@ void run_c19(Judge& j, uint64_t n, int64_t only = -1) {
                 if (rng.chance(1, 6)) enc[0] = char(enc[0] | 0x06);
                 hostile = enc + hostile;
                 ref::Packet rl; rl.type = ref::PUBREL; rl.pid = 90;
+                if (rng.chance(2, 3)) { ref::Prop rs; rs.id = 0x1F; rs.s1 = "release"; rl.props.push_back(rs); if (rng.chance(1, 2)) rl.rc = 0x92; }
                 Action hb2; hb2.kind = Action::hostile_bytes; hb2.at = 320 * MS; hb2.bytes = mutate_packet(rng, g, ref::PUBREL, &rl); base.script.push_back(hb2);
             }
             Action hb; hb.kind = Action::hostile_bytes; hb.at = 200 * MS; hb.bytes = hostile; base.script.push_back(hb);
